@@ -14,7 +14,8 @@ RULE = ("fake git repositories: DAG of <=10 (quick) / <=18 (thorough) commits wi
         "coincide or lie inside another branch's history), 0-2 build tags on any commit, messages that contain the search "
         "text, a super-string of it or neither (also in the body of a multi-line message), generated commit times within the "
         "30-day window. Non-trivial = >=2 branches and (a merge commit, >=2 roots, a head inside another branch, or a matching "
-        "commit listed in >=2 branches); distinct by case hash.")
+        "commit listed in >=2 branches); distinct by case hash."
+        " Also: search texts with significant blanks at their ends; build tags in the project's own format through the parse_buildtag hook.")
 ASSUMPTIONS = [
     "more than 400k Python calls inside ak/ghist.py for a history of <=18 commits is a divergence (normal runs need a few thousand)",
     "'contains the search text' is plain substring containment on the whole commit message",
